@@ -34,7 +34,7 @@ ContentsAt(e, repo, cat, loc) ==
 
 Open(e) ==
   /\ Require(l, "open", Sig(e), IsSome(e.res))
-  /\ inst' = (e.h :> [disk |-> DiskOfEv(e), ev |-> e]) @@ inst
+  /\ inst' = (e.h :> [disk |-> DiskOfEv(e), ev |-> e, seen |-> {}]) @@ inst
 
 Query(e) ==
   LET d == inst[e.h].disk
@@ -57,7 +57,12 @@ Query(e) ==
                     IN IF want = {} THEN TRUE    \* entry designates nothing the generator described
                        ELSE Require(l, "extract", Sig(e), IsSome(e.res) /\ e.res.v.v \in want)
                ELSE Require(l, "extract-absent", Sig(e), IsValue(e.res) /\ ~e.res.v.some)
-     /\ UNCHANGED inst
+     \* "the answer for a path never depends on which other paths were queried before it on the same handle": a question asked
+     \* again gets the answer it got before (this is what decides a path that several chunks hold, where each entry alone is acceptable)
+     /\ LET before == {t \in inst[e.h].seen : t[1] = e.q /\ t[2] = e.path}
+        IN IF \A t \in before : t[3] = e.res THEN TRUE
+           ELSE Mismatch(l, "answer-depends-on-history", Sig(e), (CHOOSE t \in before : t[3] # e.res)[3], e.res)
+     /\ inst' = [inst EXCEPT ![e.h].seen = @ \cup {<<e.q, e.path, e.res>>}]
 
 \* raw read of one described entry
 Read(e) ==
